@@ -486,7 +486,7 @@ def strip_site(t):
     if t and t[0] == "call":
         return ("call", t[1], tuple(strip_site(a) for a in t[2]))
     if t and t[0] == "ref":
-        return ("ref", t[1], strip_site(t[2]))
+        return ("ref", t[1], strip_site(t[2]), t[3] if len(t) > 3 else "")
     if t and t[0] == "const":
         return t[:3]
     return tuple(strip_site(x) for x in t)
